@@ -1,9 +1,14 @@
 import EmbitModel.Driver.Descriptor
 import EmbitModel.Model.Cost
+import EmbitModel.Driver.Psbt
+import EmbitModel.Model.CostBin
 /-
   Line protocol for C17 (text parsers): the cost companions of `Model/Cost.lean` on the driver's key decoders.
     c17.desc TEXT   →  ok STREAMCALLS READFROMCALLS DEPTH ACCEPTED      (TEXT: hex of the ASCII bytes)
     c17.b58 TEXT    →  ok STEPS OUTLEN|none                             (`base58.decode`)
+  and the instrumented byte parsers of `Model/CostBin.lean` (value part = `Tx.parse` / `Psbt.parse`, Props/C17Y):
+    c17.txsteps BYTES        →  ok STEPS ACCEPTED
+    c17.psbtsteps C BYTES    →  ok STEPS ACCEPTED                       (C: compress mode)
 -/
 namespace Embit.Driver
 open Embit Embit.Model.Descriptor Embit.Model.Cost
@@ -21,6 +26,14 @@ def handleCost (op : String) (args : List String) : Option String :=
     let t ← runTok tokText args
     pure (joinToks ["ok", toString (b58DecodeSteps t),
       match Model.Base58.decode t with | some b => toString b.length | none => "none"])
+  | "c17.txsteps" => do
+    let b ← runTok tokBytes args
+    let q := Model.CostBin.txParseC b
+    pure (joinToks ["ok", toString q.2, if q.1.isSome then "1" else "0"])
+  | "c17.psbtsteps" => do
+    let (c, b) ← runTok (do let c ← tokNat; let b ← tokBytes; pure (c, b)) args
+    let q := Model.CostBin.psbtParseC concreteKeyOps Crypto.sha256 c b
+    pure (joinToks ["ok", toString q.2, if q.1.isSome then "1" else "0"])
   | _ => none
 
 end Embit.Driver
